@@ -199,8 +199,9 @@ def call_outcome(fn):
         return ("exc", e)
 
 
-def exec_call(ctx, league, op, tracer=None):
-    """Execute a RATE or PREDICT op on the league. Returns a record dict; commits results."""
+def prepare_call(ctx, league, op):
+    """What the service does before it calls the library: make sure the players exist and
+    clamp anybody who left the valid domain D back into it (deterministic, logged)."""
     names = op["teams"]
     league.ensure(flat(names))
     if op["op"] == "RATE":
@@ -212,6 +213,13 @@ def exec_call(ctx, league, op, tracer=None):
     if rs:
         ctx.fault("domain_reseed", len(rs))
         ctx.log("reseed", rs)
+    return rs
+
+
+def exec_call(ctx, league, op, tracer=None):
+    """Execute a RATE or PREDICT op on the league. Returns a record dict; commits results."""
+    names = op["teams"]
+    rs = prepare_call(ctx, league, op)
     teams = league.teams_of(names)
     rec = {"op": op, "snap": snap_teams(teams), "reseeded": rs, "cfg": league.cfg}
     if op["op"] == "RATE":
@@ -831,7 +839,13 @@ class CallsDriver:
                 continue
             o = op["threads"][ti][k]
             rec = records[ti][k]
-            if o["op"] == "MALFORMED" or rec["out"][0] == "crash":
+            if o["op"] == "MALFORMED":
+                continue
+            if rec["out"][0] == "crash":
+                # the killed call itself left nothing behind (players restored from the
+                # store), but what the service did BEFORE calling - re-seeding a player that
+                # had left the domain - did happen and was stored
+                prepare_call(sub, l2s[ti], o)
                 continue
             r2 = exec_call(sub, l2s[ti], o)
             ctx.evaluations += 1
